@@ -90,8 +90,15 @@ func (dist *CategoricalDistribution) Pdf(r Scalar, x ConstScalar) error {
 }
 
 func (dist *CategoricalDistribution) LogCdf(r Scalar, x ConstScalar) error {
-  r.Reset()
-  for i := 0; i <= int(x.GetFloat64()); i++ {
+  // start the sum on log scale with log(0) = -Inf
+  r.SetFloat64(0.0)
+  r.Log(r)
+  // index of the last category that is <= x
+  k := int(x.GetFloat64())
+  if x.GetFloat64() < 0.0 {
+    k = -1
+  }
+  for i := 0; i <= k && i < dist.Theta.Dim(); i++ {
     r.LogAdd(r, dist.Theta.At(i), dist.t)
   }
   return nil
